@@ -120,7 +120,7 @@ def run(ctx, driver):
         "SymPy contract: the propagator entries are the entries of exp(A h) for each component's sub-matrix, and an entry SymPy reports as zero vanishes for all h "
         "(validated end-to-end on every case by the d/dh oracle, which differentiates the *returned* propagator strings)",
         "scipy connected_components returns the connected components (its partition is compared with the model's own closure on every case; the theorem needs only that no non-zero entry of A joins two different labels, which the model checks itself)",
-        "returned strings carry 15 significant digits, so the oracle tolerance is 1e-11 relative",
+        "returned strings carry 15 significant digits and SymPy diagonalises matrices with float entries numerically (observed cancellation error 7e-11 for eigenvalues (3 +- sqrt 5)/2), so the oracle tolerance is 1e-7 relative; seeded defects produce O(1) deviations",
     ]
 
 
